@@ -18,7 +18,7 @@ SEARCH_AOBJ = $(patsubst engines/%.cpp,$(B)/asan/%.o,$(SEARCH_SRC))
 
 .PHONY: all prod asan clean
 all: prod
-prod: $(B)/search $(B)/segmentation
+prod: $(B)/search $(B)/segmentation $(B)/dynamic
 
 $(STAMP):
 	@mkdir -p $(B) && touch $@
@@ -36,6 +36,12 @@ $(B)/search: $(SEARCH_OBJ)
 
 $(B)/segmentation: $(B)/prod/segmentation.o
 	$(CXX) $(PROD) $^ -o $@
+
+$(B)/dynamic: $(B)/prod/dynamic.o
+	$(CXX) $(PROD) $^ -o $@
+
+$(B)/dynamic_asan: $(B)/asan/dynamic.o
+	$(CXX) $(ASAN) $^ -o $@
 
 $(B)/search_asan: $(SEARCH_AOBJ)
 	$(CXX) $(ASAN) $^ -o $@
